@@ -82,6 +82,29 @@ def run(ctx, out):
     # (14 s is the largest pause the 60 s guard around the four-packet connection handshake allows: 4 x 14 = 56 s)
     run_histories(ctx, out, slow, "idle clean-up, slow terminal (14 s before every packet)", gap=14)
     out.count("slow-terminal", len(slow))
+    # the pending query answered with something that is NOT the abort the protocol prescribes (a completion, a status information,
+    # an intermediate status first): the clean-up stops there with an error — in particular no end-of-day is requested over a ledger the
+    # client could not inspect. implementation = model; oracle on the implementation: the finishing call fails, 06 50 is not sent after it
+    odd_ops, odd_meta = [], []
+    for fin in ("commit", "cancel"):
+        for reply in ([P.completion()], [P.status(result_code=0)], [P.intermediate(), P.pr_abort(0xb8, 0xffff)], [P.print_line("x"), P.pr_abort(0xb8, 17)]):
+            cfg = G.default_cfg(max=1)
+            calls = ["new", f"begin:{tok('a')}", f"{fin}:{tok('a')}" + (":5" if fin == "commit" else "")]
+            q = {"0622": [ok_begin(11)], "0623q": [[P.pr_abort(0xb8, 0xffff)], reply], "0623": [ok_commit], "0625": [[P.completion()]], "0650": [[P.completion()], [P.completion()]]}
+            odd_ops.append(G.op_line(cfg, calls, G.script_str(cfg, q)))
+            odd_meta.append((fin, reply))
+    oi, om = ctx.pair(odd_ops)
+    out.compare("client(pending query answered oddly)", odd_ops, oi, om)
+    out.evaluations += len(odd_ops)
+    for o, r, (fin, reply) in zip(odd_ops, oi, odd_meta):
+        out.nontrivial.add(o)
+        out.count("pending query answered with another packet")
+        results, logs = G.parse_out(r)
+        rx = [e for e in (logs or {}).get(0, []) if e.startswith("rx:")]
+        n_eod = sum(1 for e in rx if e.startswith("rx:0650"))
+        if results is None or len(results) != 3 or results[-1][0].startswith("ok") or n_eod != 1:
+            out.oracle_failures.append({"op": o, "observed": r[:600], "expected": "the finishing call fails; exactly one 06 50 (the one of the start-up)", "key": o[:300],
+                                        "what": "idle clean-up: the pending query was not answered with an abort, yet the call succeeds / end-of-day is requested"})
     # explicit shape oracle on the implementation's traffic: end-of-day (06 50) never while another token is open
     out.rule = ("histories begin..commit/cancel over 1 and 2 tokens x outcome of the finishing exchange (completed, aborted, commit completed without status information) x dangling pre-authorisation reported by the pending query "
                 f"(absent, FFFF, 17, 9999, and the receipt numbers 11 / 12 of the transactions of the history itself) x reversal outcome x end-of-day outcome (completion, completion after intermediate packets, {len(list(codes))} abort codes incl. A0). The client must send exactly: finishing request, "
